@@ -431,6 +431,50 @@ pub fn gen_recreate_cycles(rng: &mut Rng, spec: SpecId) -> History {
     History { spec, world: w, block, steps }
 }
 
+/// Directed family: one stored contract (pre-existing, with storage) whose two slots are written
+/// back and forth over a three-value domain, one write per transaction (sometimes two in one
+/// transaction), merges at random positions. Hits "returns to the original value", "returns to an
+/// intermediate value of an earlier group", "written twice inside one group".
+pub fn gen_slot_pingpong(rng: &mut Rng, spec: SpecId) -> History {
+    let mut w = World::default();
+    let eth = U256::from(10u64).pow(U256::from(18u8));
+    w.accounts.insert(SENDER1, Acct { balance: eth * U256::from(1000u64), ..Default::default() });
+    let mut st = BTreeMap::new();
+    for k in 0..2u64 {
+        let v = rng.below(3);
+        if v != 0 {
+            st.insert(U256::from(k), U256::from(v));
+        }
+    }
+    w.accounts.insert(C1, Acct { nonce: 1, balance: U256::from(50u8), code: child_runtime(), storage: st });
+    let n = rng.range(3, 9) as usize;
+    let retain = !rng.chance(1, 8);
+    let pm = 1 + rng.below(3);
+    let mut steps = vec![];
+    for i in 0..n {
+        let mut calls = vec![];
+        for _ in 0..(1 + rng.below(4) / 3) {
+            calls.push(ScriptCall { to: C1, value: U256::ZERO, words: vec![U256::from(2u8), U256::from(rng.below(2)), U256::from(rng.below(3))], gas: 100_000 });
+        }
+        let saddr = addr(0x5000 + i as u16);
+        w.accounts.insert(saddr, Acct { nonce: 1, balance: U256::from(100u8), code: script_code(&calls, rng.chance(1, 10)), ..Default::default() });
+        let mut t = TxSpec { to: Some(saddr), gas_limit: 3_000_000, gas_price: U256::from(10u64), nonce: Some(i as u64), ..Default::default() };
+        if spec >= SpecId::LONDON {
+            t.gas_price = U256::from(1000u64);
+        }
+        steps.push(Step::Tx(t));
+        if rng.chance(pm, 4) {
+            steps.push(Step::Merge(retain));
+        }
+    }
+    if !matches!(steps.last(), Some(Step::Merge(_))) {
+        steps.push(Step::Merge(retain));
+    }
+    let mut block = BlockSpec::default();
+    block.basefee = if spec >= SpecId::LONDON { 7 } else { 0 };
+    History { spec, world: w, block, steps }
+}
+
 /// history from the generic W generator
 pub fn gen_w_history(rng: &mut Rng, spec: SpecId) -> History {
     let case = gen_case(rng, spec, 6);
